@@ -89,6 +89,38 @@ def replay(mod, path: str) -> int:
     return 0
 
 
+_WIT: dict = {}
+
+
+def _replay_witness(job):
+    """-> (kind, clause, detail); kind in ok / violation / harness.  Runs in a forked worker."""
+    fi, wi = job
+    f = _WIT["findings"][fi]
+    w = f["witness"]
+    wcase = w.get("cases", [w.get("case")])[wi]
+    try:
+        part = _find_part(_WIT["mod"], _WIT["tier"], w["part"])
+    except KeyError as e:
+        return ("harness", "", str(e))
+    wrec = Rec()
+    # other open known findings stay excluded while a witness is replayed
+    wrec.open_keys = _WIT["open_keys"] - {f.get("key")}
+    try:
+        with _quiet_stderr():
+            part.check(wcase, wrec)
+        return ("ok", "", "")
+    except Excluded:
+        return ("ok", "", "")
+    except Violation as v:
+        return ("violation", v.clause, v.detail[:3000])
+    except InvalidCase as e:
+        return ("harness", "", f"invalid: {e}")
+    except BaseException as e:  # noqa: BLE001
+        import traceback
+
+        return ("harness", "", traceback.format_exc()[-1500:])
+
+
 def run_property(mod, tier: str, seed: int, t0: float, only_part=None) -> int:
     pid = mod.ID
     findings = load_findings(pid)
@@ -98,40 +130,39 @@ def run_property(mod, tier: str, seed: int, t0: float, only_part=None) -> int:
     harness_problems: list[str] = []
     witness_report = []
 
-    # 1. witnesses of fixed / known findings (plain regression checks, no Hypothesis)
-    for f in findings:
+    # 1. witnesses of fixed / known findings (plain regression checks, no Hypothesis), in parallel
+    jobs = []
+    for fi, f in enumerate(findings):
         w = f.get("witness")
         if not w:
             continue
         for wi, wcase in enumerate(w.get("cases", [w.get("case")])):
-            try:
-                part = _find_part(mod, tier, w["part"])
-            except KeyError as e:
-                harness_problems.append(str(e))
+            jobs.append((fi, wi))
+    _WIT.clear()
+    _WIT.update(mod=mod, tier=tier, findings=findings, open_keys=open_keys)
+    if jobs:
+        import multiprocessing as mp
+
+        if len(jobs) == 1 or os.environ.get("VZ_INLINE") == "1":
+            results = [_replay_witness(j) for j in jobs]
+        else:
+            with mp.get_context("fork").Pool(min(len(jobs), driver.NSHARDS)) as pool:
+                results = pool.map(_replay_witness, jobs)
+        for (fi, wi), (kind, clause, detail) in zip(jobs, results):
+            f = findings[fi]
+            w = f["witness"]
+            wcase = w.get("cases", [w.get("case")])[wi]
+            if kind == "harness":
+                harness_problems.append(f"witness of {f.get('key')}: {detail}")
                 continue
-            try:
-                wrec = Rec()
-                # other open known findings stay excluded while a witness is replayed
-                wrec.open_keys = open_keys - {f.get("key")}
-                with _quiet_stderr():
-                    part.check(wcase, wrec)
-                failed = None
-            except Excluded:
-                failed = None
-            except Violation as v:
-                failed = v
-            except InvalidCase as e:
-                harness_problems.append(f"witness of {f.get('key')} invalid: {e}")
-                continue
-            witness_report.append({"key": f.get("key"), "status": f["status"],
-                                   "still_fails": bool(failed)})
+            failed = kind == "violation"
+            witness_report.append({"key": f.get("key"), "status": f["status"], "still_fails": failed})
             if f["status"] == "known":
-                if failed is not None and wi == 0:
+                if failed and wi == 0:
                     print(f"KNOWN-FINDING: property={pid} {f['what']}")
-            elif f["status"] == "fixed":
-                if failed is not None:
-                    p = _write_replay(pid, w["part"], wcase, failed.clause, failed.detail)
-                    violations.append((f"fixed finding {f.get('key')} is back: {failed.clause}", p))
+            elif f["status"] == "fixed" and failed:
+                p = _write_replay(pid, w["part"], wcase, clause, detail)
+                violations.append((f"fixed finding {f.get('key')} is back: {clause}", p))
 
     # 2. generated search
     total = driver.ShardResult()
